@@ -1,13 +1,14 @@
 (* Correspondence definitions for C50: evaluate the writer/reader model on the cases the implementation ran. *)
 From Coq Require Import List NArith ZArith Bool.
 Import ListNotations.
-From GMS Require Import Codec.Outfile.
+From GMS Require Import Codec.Outfile Codec.C50Fmt.
 
 Definition val_eqb (a b : val) : bool :=
   match a, b with
   | VNull, VNull => true
   | VInt x, VInt y => Z.eqb x y
   | VStr x, VStr y => bytes_eq x y
+  | VRaw x, VRaw y => bytes_eq x y
   | _, _ => false
   end.
 
@@ -26,7 +27,12 @@ Inductive case :=
 | RoundTrip (o : opts) (tys : list colty) (rows : list (list val)) (file : bytes)
             (typed : option (list (list val))) (text : list (list val))
 (* a hand-made file loaded into an all-TEXT table with [n] columns *)
-| ReadOnly (o : opts) (n : nat) (file : bytes) (text : list (list val)).
+| ReadOnly (o : opts) (n : nat) (file : bytes) (text : list (list val))
+(* general round trip: table column types, exported / loaded column list (indices into tys, in statement order),
+   IGNORE n LINES, the exported rows projected on the column list, file bytes, typed reload (all table columns),
+   all-TEXT reload (as many columns as exported, same IGNORE) *)
+| RoundTripX (o : opts) (tys : list colty) (cols : list nat) (ign : nat) (rows : list (list xval)) (file : bytes)
+             (typed : option (list (list xval))) (text : list (list val)).
 
 Definition text_ok (o : opts) (n : nat) (file : bytes) (text : list (list val)) : bool :=
   match load o (repeat TText n) file with
@@ -46,6 +52,19 @@ Definition ok (c : case) : bool :=
          | NoTermination, _ => false
          end
   | ReadOnly o n file text => text_ok o n file text
+  | RoundTripX o tys cols ign rows file typed text =>
+      let ptys := map (fun j => nth j tys TInt) cols in
+      bytes_eq (dump o ptys (map (map to_val_x) rows)) file
+      && match load_ignore ign o (repeat TText (length cols)) file with
+         | Loaded r => rows_eqb r text
+         | _ => false
+         end
+      && match load_cols ign o tys cols file, typed with
+         | Loaded r, Some r' => rows_eqb r (map (map to_val_x) r')
+         | Loaded _, None => false
+         | ConvOutside, _ => true
+         | NoTermination, _ => false
+         end
   end.
 
 Definition mismatches (cs : list (N * case)) : list N :=
